@@ -140,15 +140,24 @@ class Hier:
 
 
 class Ad(object):
-    """An adapter built by an instrumented factory; prov = offer ids that built it."""
-    __slots__ = ("prov",)
+    """An adapter built by an instrumented factory; prov = offer ids that built it; root / step =
+    (histories) the pool object it was built from and the assignment step that built it."""
+    __slots__ = ("prov", "root", "step")
 
-    def __init__(self, prov):
+    def __init__(self, prov, root=None, step=None):
         self.prov = prov
+        self.root = root
+        self.step = step
+
+
+CUR_STEP = [None]
 
 
 class Default(object):
-    """The default value of a trait / the `default` argument."""
+    """The default value of a trait / the `default` argument (remembers the history step that made it)."""
+
+    def __init__(self):
+        self.step = CUR_STEP[0]
 
 
 class FactoryError(ValueError):
@@ -175,9 +184,11 @@ class Ctx:
                     self.bykey[(int(o), prov)] = v
         self.reset(None)
 
-    def reset(self, src):
+    def reset(self, src, root=None, step=None):
         self.src = src
         self.log = []
+        self.root = root
+        self.step = step
 
     def prov_of(self, obj):
         if obj is self.src:
@@ -201,7 +212,7 @@ class Ctx:
                 ctx.log.append((oid, "!", prov))
                 raise FactoryError("factory raises")
             ctx.log.append((oid, "+", prov))
-            return adaptee if ident else Ad(prov + (oid,))
+            return adaptee if ident else Ad(prov + (oid,), ctx.root, ctx.step)
         return factory
 
     def show_log(self):
@@ -234,28 +245,37 @@ def show_offers(offers):
     return ";".join("%d:%d:%d:%d:%s" % o for o in offers) if offers else "-"
 
 
-def build_manager(hier, offers, ctx):
+def register_one(m, hier, offer, ctx, objs, info):
+    """Register one offer tuple on manager m (objs: id -> offer object or True, info: id -> classes)."""
+    from traits.adaptation.api import AdaptationOffer
+    (i, f, t, k, kind) = offer
+    F, T = hier.types[f], hier.types[t]
+    ident = kind == "p"
+    info.setdefault(i, (F, T, ident))
+    if kind in ("f", "p") and i not in objs:
+        m.register_factory(ctx.make_factory(i, ident), F, T)
+        objs[i] = True
+        return
+    if i not in objs or objs[i] is True:
+        if kind == "l":
+            objs[i] = AdaptationOffer(factory=ctx.make_factory(i, ident),
+                                      from_protocol=hier.names[f], to_protocol=hier.names[t])
+        else:
+            objs[i] = AdaptationOffer(factory=ctx.make_factory(i, ident), from_protocol=F, to_protocol=T)
+    m.register_offer(objs[i])
+
+
+def build_manager(hier, offers, ctx, want_objs=False):
     """A fresh AdaptationManager with the offers registered in order.
     Returns (manager, {id: (from_cls, to_cls, ident)})."""
-    from traits.adaptation.api import AdaptationManager, AdaptationOffer
+    from traits.adaptation.api import AdaptationManager
     m = AdaptationManager()
     objs = {}
     info = {}
-    for (i, f, t, k, kind) in offers:
-        F, T = hier.types[f], hier.types[t]
-        ident = kind == "p"
-        info.setdefault(i, (F, T, ident))
-        if kind in ("f", "p") and i not in objs:
-            m.register_factory(ctx.make_factory(i, ident), F, T)
-            objs[i] = True
-            continue
-        if i not in objs or objs[i] is True:
-            if kind == "l":
-                objs[i] = AdaptationOffer(factory=ctx.make_factory(i, ident),
-                                          from_protocol=hier.names[f], to_protocol=hier.names[t])
-            else:
-                objs[i] = AdaptationOffer(factory=ctx.make_factory(i, ident), from_protocol=F, to_protocol=T)
-        m.register_offer(objs[i])
+    for offer in offers:
+        register_one(m, hier, offer, ctx, objs, info)
+    if want_objs:
+        return m, info, objs
     return m, info
 
 
@@ -626,6 +646,83 @@ def random_specific_case(rng):
         queries = ["a %d %d" % (src, tgt), "t S 1 1 %d %d" % (src, tgt)] + ["m %d %d" % (src, i) for i in range(k)]
         return make_line(hier, offers, ft, queries)
     raise RuntimeError("could not generate a specificity case")
+
+
+def random_history_case(rng):
+    """Histories on ONE trait of ONE object: the same pool object assigned several times to an AdaptsTo /
+    Supports / Instance(adapt=...) trait, with the answer of adapt() changing in between — a factory-table
+    entry flipped (the state of the value changes a conditional factory's mind) or an offer registered
+    (a more specific one, an identity one, a detour).  Protocols 0..k-1, source type k, target k+1,
+    intermediate type k+2."""
+    for _ in range(50):
+        k = rng.randint(1, 3)
+        fam = rng.choice(["i", "a", "mixed"])
+        ts = []
+        for i in range(k):
+            kind = {"i": "i", "a": "a", "mixed": rng.choice("aac")}[fam]
+            bases = []
+            if i and rng.random() < 0.5:
+                bases = [rng.randrange(i)]
+            ts.append("%s%d:%s" % (kind, i, ",".join(map(str, bases))))
+        src, tgt, mid = k, k + 1, k + 2
+        sb = rng.sample(range(k), min(k, rng.choice([0, 1, 1, 2]))) if fam != "i" else []
+        ts.append("%s%d:%s" % ("h" if fam == "i" else "c", src, ",".join(map(str, sb))))
+        ts.append("c%d:" % tgt)
+        ts.append("c%d:" % mid)
+        regs = ["%d<%d" % (i, src) for i in range(k) if i not in sb and ts[i][0] in "ai" and rng.random() < 0.8]
+        spec = "T=" + ";".join(ts) + ("/R=" + ";".join(regs) if regs else "")
+        try:
+            hier = Hier(spec)
+        except TypeError:
+            continue
+        cand = []
+        nid = 0
+        for f in list(range(k)) + [src, src]:
+            cand.append((nid, f, tgt, hier.key_of(f), rng.choice("nnnp")))
+            nid += 1
+        cand.append((nid, rng.choice(list(range(k)) + [src]), mid, hier.key_of(src), "n"))
+        cand[-1] = cand[-1][:3] + (hier.key_of(cand[-1][1]), "n")
+        nid += 1
+        cand.append((nid, mid, tgt, hier.key_of(mid), "n"))
+        nid += 1
+        rng.shuffle(cand)
+        n0 = rng.randint(1, max(1, len(cand) - 1))
+        offers, later = cand[:n0], cand[n0:]
+        ft = {}
+        for o in offers:
+            if rng.random() < 0.2:
+                ft["%d@-" % o[0]] = "n"
+        cls = rng.choice("AAAAASI")
+        mode = rng.choice([1, 1, 1, 2, 0])
+        an = rng.choice([0, 1])
+        pool = [str(src)] + [str(rng.choice([src, src, mid] + list(range(k)))) for _ in range(rng.choice([0, 1, 2]))]
+        steps = ["a0"]
+        refused = set(key for key in ft)
+        known = list(offers)
+        for _ in range(rng.randint(2, 7)):
+            r = rng.random()
+            if r < 0.5:
+                steps.append("a%d" % (0 if rng.random() < 0.7 else rng.randrange(len(pool))))
+            elif r < 0.8 or not later:
+                o = rng.choice(known)
+                prov = "-" if rng.random() < 0.8 else str(rng.choice(known)[0])
+                key = "%d@%s" % (o[0], prov)
+                if key in refused:
+                    refused.discard(key)
+                    steps.append("f%s=+" % key)
+                else:
+                    refused.add(key)
+                    steps.append("f%s=%s" % (key, "r" if rng.random() < 0.05 else "n"))
+            else:
+                o = later.pop()
+                known.append(o)
+                steps.append("r%d:%d:%d:%d:%s" % o)
+        if steps[-1][0] != "a":
+            steps.append("a0")
+        q = "h %s %d %d %d %s %s" % (cls, mode, an, tgt, ",".join(pool), " ".join(steps))
+        queries = [q, "a %d %d" % (src, tgt)]
+        return make_line(hier, offers, ft, queries)
+    raise RuntimeError("could not generate a history case")
 
 
 # ---- exhaustive small scope ------------------------------------------------
